@@ -358,7 +358,13 @@ func runConnHistory(r *mon.Run, e *connEnv, rng *rand.Rand, readers, writers int
 					query = longQuery
 				}
 				a := rec.now()
-				resp := wire.Serve(mux, wire.BodyRequest("GET", fmt.Sprintf("/cx/m%d/v", meth), query, nil, nil))
+				var resp *wire.Resp
+				if lr.Intn(4) == 0 {
+					// the any-verb implicit binding of the same method
+					resp = wire.Serve(mux, wire.BodyRequest("POST", fmt.Sprintf("/vf.cx.X/Me%d", meth), "", http.Header{"Content-Type": {"application/json"}}, []byte(`{"a":"i"}`)))
+				} else {
+					resp = wire.Serve(mux, wire.BodyRequest("GET", fmt.Sprintf("/cx/m%d/v", meth), query, nil, nil))
+				}
 				b := rec.now()
 				if resp.Wedged {
 					r.Inconclusive("proxied request did not return")
